@@ -21,7 +21,7 @@ import sys
 import threading
 import time
 
-from .common import VERIF
+from .common import VERIF, REPO
 
 PY = os.path.join(VERIF, ".venv", "bin", "python")
 NWORKERS = int(os.environ.get("VERIF_JOBS", "0")) or min(16, os.cpu_count() or 4)
@@ -88,7 +88,7 @@ class _Worker(object):
     def spawn(self):
         env = dict(os.environ)
         env["PYTHONHASHSEED"] = "0"
-        env["PYTHONPATH"] = VERIF
+        env["PYTHONPATH"] = VERIF if REPO == "/repo" else VERIF + os.pathsep + REPO
         self.proc = subprocess.Popen(
             [PY, "-m", "engine.ch_worker"],
             stdin=subprocess.PIPE,
@@ -169,7 +169,7 @@ class Runner(object):
         self.report = report
         self.harness_module = harness_module  # e.g. "harness.c06"
         self.tier = tier
-        self.build_dir = os.path.join(VERIF, "build", report.prop)
+        self.build_dir = os.path.join(VERIF, "build", report.prop + (os.environ.get("VERIF_NO_EVIDENCE") or ""))
         os.makedirs(self.build_dir, exist_ok=True)
         self.module_path = os.path.join(self.build_dir, "obligations_{0}.py".format(tier))
         self._extra_src = []
@@ -488,8 +488,8 @@ def traced_functions(fn, *args, **kwargs):
     def tracer(frame, event, arg):
         if event == "call":
             code = frame.f_code
-            if code.co_filename.startswith("/repo/"):
-                seen.add("{0}:{1}".format(os.path.relpath(code.co_filename, "/repo"), code.co_qualname))
+            if code.co_filename.startswith(REPO + "/"):
+                seen.add("{0}:{1}".format(os.path.relpath(code.co_filename, REPO), code.co_qualname))
         return None
 
     old = sys.gettrace()
